@@ -9,7 +9,7 @@ META = {
     "technique": "Rocq proof over Gallina models of apply for the BDD and the complement-edge BDD (BCDD) kind (terminal cases + Shannon expansion + arbitrary cache; BCDD: reduce with tag normalisation, terminal_and/terminal_xor, the 8 operators derived by tag flips, ite, eval with complement parity, cofactors, var/const) refining the pointwise spec layer; correspondence: every result of the real BDD/BCDD/ZBDD managers is lifted to a snapshot and compared, by the extracted interpreter and spec, on all assignments; for BCDD and for ZBDD additionally the extracted apply model of the kind is replayed on every snapshot and must return the real result edge itself; ZBDD kind: Gallina model of the Boolean interface (coq/DD/ZbddBool.v after oxidd-rules-zbdd/src/apply_rec.rs and lib.rs: tautology chain lookup, apply_not = taut(0) \\ f, apply_symm_diff, apply_ite with its level-dependent tautology short-cuts and the intsec/diff hi-branch patterns, the derivation of the 8 operators, var_edge with its don't-care chain, eval_edge with bit set + ones counter, cofactors) proved against the set-family semantics of C09 and its Boolean view",
     "category": "proof",
     "design_ref": "DESIGN.md section 5, C02",
-    "level_text": "Theorems (coq/Props/C02.v): the apply model with its terminal short-cuts returns, for every well-formed table, cache and operand tuple, an edge whose interpretation is the pointwise connective; eval-walk equals the interpretation; children are the Shannon cofactors - proved for the plain BDD kind (C02_*) and for the complement-edge kind (C02_bcdd_*: coq/DD/ApplyBcdd.v mirrors complement_edge/mod.rs and apply_rec.rs; not, and, or, nand, nor, xor, equiv, imp, imp_strict, ite, var, not_var, f, t, eval, cofactors; for every lossy cache and every operand order; the result is the unique edge of its function, so it does not depend on cache or history). ZBDD kind (C02_zbdd_*, 25 theorems; model coq/DD/ZbddBool.v on top of the C09 model coq/DD/ZbddOps.v): for every ZbddOK table whose tautology chain is present (zchain_ok_b, decided on every real snapshot; C02_zbdd_chain_after_add_vars: holds after add_vars / post_reorder_mut, C02_zbdd_chain_extends: kept by every table extension; C02_zbdd_taut_den / _taut_canon: the chain edge of level l denotes all subsets of the levels below and is the only such edge), every lossy cache satisfying the invariant ZCacheOKB (all nine operator codes), every operand order and fuel >= nlevels+1: not, and, or, nand, nor, xor, equiv, imp, imp_strict (C02_zbdd_apply_op_sound / _bfun, exactly as the code derives them: intsec, union, symm_diff, diff(g,f), not = taut(0) \\ f, imp = ite(f,g,taut(0))), ite (C02_zbdd_apply_ite_sound / _bfun: all terminal cases incl. the two level-dependent tautology short-cuts, the six recursion patterns), constants, var (with its don't-care nodes above), not_var return an edge whose Boolean view over all levels (semz / C09_bool_view, zbfun_of per assignment) is the pointwise connective; table only extended, ZbddOK + chain + cache invariant preserved; C02_zbdd_apply_op_families gives the family reading (C09); C02_zbdd_result_unique / _view_canon / _history_independent: the result is the only edge with its view (independent of cache, order, history); C02_zbdd_eval_walk_sem / _eval_edge_assignment: the eval walk with the level bit set and the ones counter equals the interpretation and never underflows; C02_zbdd_cofactors: cofactors = children = (subset1, subset0) of the top variable, as families and literally as what the C09 subset model returns. Tie to the code: all pairs of the 256 three-variable functions for each of the 8 binary operators, not, sampled ite triples, constants/variables, eval and cofactors, per kind (BDD, BCDD, ZBDD) under a seed-chosen variable order (all 6 in the thorough tier), random operands over 4..7 variables, 1/2/8 worker threads; each result is checked by the extracted sem on the lifted node table against the extracted spec. BCDD cases are run a second time through ocaml/c02b_main.ml: every not/binary/ite/var/const/eval/cofactors operation is replayed by the extracted BCDD model on the lifted snapshot (every 8th also without cache and with the reverse operand order) and must yield the real result edge without needing a new node. ZBDD cases are run a second time through ocaml/c02z_main.ml in the same way on the extracted ZBDD model (zapply_not / zapply_op / zapply_ite / zvar / znot_var / zconst / zeval_edge / zcofactors; hypotheses zbdd_ok_b and zchain_ok_b evaluated per snapshot; restrict operations of the histories through zrestrict_edge, see C04): quick tier ~565 k binary, 30 k ite, 300 not / eval / cofactors replays, every one returning the real edge.",
+    "level_text": "Theorems (coq/Props/C02.v): the apply model with its terminal short-cuts returns, for every well-formed table, cache and operand tuple, an edge whose interpretation is the pointwise connective; eval-walk equals the interpretation; children are the Shannon cofactors - proved for the plain BDD kind (C02_*) and for the complement-edge kind (C02_bcdd_*: coq/DD/ApplyBcdd.v mirrors complement_edge/mod.rs and apply_rec.rs; not, and, or, nand, nor, xor, equiv, imp, imp_strict, ite, var, not_var, f, t, eval, cofactors; for every lossy cache and every operand order; the result is the unique edge of its function, so it does not depend on cache or history). ZBDD kind (C02_zbdd_*, 25 theorems; model coq/DD/ZbddBool.v on top of the C09 model coq/DD/ZbddOps.v): for every ZbddOK table whose tautology chain is present (zchain_ok_b, decided on every real snapshot; C02_zbdd_chain_after_add_vars: holds after add_vars / post_reorder_mut, C02_zbdd_chain_extends: kept by every table extension; C02_zbdd_taut_den / _taut_canon: the chain edge of level l denotes all subsets of the levels below and is the only such edge), every lossy cache satisfying the invariant ZCacheOKB (all nine operator codes), every operand order and fuel >= nlevels+1: not, and, or, nand, nor, xor, equiv, imp, imp_strict (C02_zbdd_apply_op_sound / _bfun, exactly as the code derives them: intsec, union, symm_diff, diff(g,f), not = taut(0) \\ f, imp = ite(f,g,taut(0))), ite (C02_zbdd_apply_ite_sound / _bfun: all terminal cases incl. the two level-dependent tautology short-cuts, the six recursion patterns), constants, var (with its don't-care nodes above), not_var return an edge whose Boolean view over all levels (semz / C09_bool_view, zbfun_of per assignment) is the pointwise connective; table only extended, ZbddOK + chain + cache invariant preserved; C02_zbdd_apply_op_families gives the family reading (C09); C02_zbdd_result_unique / _view_canon / _history_independent: the result is the only edge with its view (independent of cache, order, history); C02_zbdd_eval_walk_sem / _eval_edge_assignment: the eval walk with the level bit set and the ones counter equals the interpretation and never underflows; C02_zbdd_cofactors: cofactors = children = (subset1, subset0) of the top variable, as families and literally as what the C09 subset model returns. Tie to the code: all pairs of the 256 three-variable functions for each of the 8 binary operators, not, sampled ite triples, constants/variables, eval and cofactors, per kind (BDD, BCDD, ZBDD) under a seed-chosen variable order (all 6 in the thorough tier), random operands over 4..7 variables, 1/2/8 worker threads; each result is checked by the extracted sem on the lifted node table against the extracted spec. BCDD cases are run a second time through ocaml/c02b_main.ml: every not/binary/ite/var/const/eval/cofactors operation is replayed by the extracted BCDD model on the lifted snapshot (every 8th also without cache and with the reverse operand order) and must yield the real result edge without needing a new node. ZBDD cases are run a second time through ocaml/c02z_main.ml in the same way on the extracted ZBDD model (zapply_not / zapply_op / zapply_ite / zvar / znot_var / zconst / zeval_edge / zcofactors; hypotheses zbdd_ok_b and zchain_ok_b evaluated per snapshot; restrict operations of the histories through zrestrict_edge, see C04): quick tier ~565 k binary, 30 k ite, 300 not / eval / cofactors replays, every one returning the real edge. Plain BDD kind at EDGE LEVEL (C02_bdd_edge_*, 15 theorems, coq/DD/ApplyBddEdge.v): for apply_not / apply_bin (all arms of terminal_bin) / apply_ite (all short-cuts) / var without any hypothesis: the table is only extended and every added node belongs to the diagram of the result (tight: no garbage node); on a well-formed table the result table and edge do not depend on the cache implementation, its content or the operand order (deterministic); an existing edge of the result function is returned with the table unchanged (existing); the instance with the direct-mapped cache of coq/DD/Cache.v under any hash function (dm). Tie: the bdd cases are run a third time through ocaml/c02_main.ml (extraction coq/Extract/ExC02.v): every not / binary / ite / var / const is replayed by the extracted Apply.apply_* (direct-mapped cache model; every 8th also cache-free with the reverse operand order: identical table and edge) on the snapshot taken BEFORE the operation: no pre-state node changed, every node the model creates exists as a new node of the implementation, the renamed model result is the real result edge, equal value tables, and (segments in which every node-creating operation was replayed) the implementation created no node the model does not create; eval (also with duplicated arguments) through the extracted eval_edge, cofactors through the extracted cofactors.",
     "level_note": "Trusted: Coq kernel, extraction, OCaml drivers, Rust harness, public accessor API. The models of apply are hand-written (BDD: coq/DD/Apply.v, BCDD: coq/DD/ApplyBcdd.v); ZBDD: coq/DD/ZbddBool.v on top of coq/DD/ZbddOps.v (C09); the manager's ZBDDCache vector of tautology edges is modelled as a lookup of the chain in the unique table (equal by C02_zbdd_taut_canon whenever the chain exists, checked on every snapshot through CONST 1 = taut(0)); nested union/intsec/diff calls of apply_ite get the fuel of the enclosing call (proved sufficient); schedule independence of the parallel recursor is C07. The edge order f < g / f > g used by the BCDD and ZBDD code to normalise commutative operand pairs is a parameter of the models (theorems hold for every order).",
 }
 ALLOWED_AXIOMS = ()
@@ -50,6 +50,33 @@ def build_c02z(ctx):
         ctx.pid = pid
     bins = vf.cargo_build(["h_dd"])
     return bins["h_dd"], drv
+
+
+C02S_VOS = ddcommon.MODEL_VOS + ["DD/Build.vo", "DD/Cache.vo", "DD/Apply.vo"]
+
+
+def build_c02s(ctx):
+    """fourth driver (plain BDD cases only): ocaml/c02_main.ml linked against the extraction of
+    coq/Extract/ExC02.v (DD/Table.v + DD/Build.v + DD/Cache.v + DD/Apply.v): edge-level replay of every
+    operation on the PRE snapshot (same result edge, same new nodes, no pre-state node changed); same harness."""
+    pid = ctx.pid
+    ctx.pid = "C02s"
+    try:
+        drv = vf.ocaml_build(ctx, "ExC02.v", "c02_main.ml", extra_ml=["dd_types.ml"], model_vos=C02S_VOS)
+    finally:
+        ctx.pid = pid
+    bins = vf.cargo_build(["h_dd"])
+    return bins["h_dd"], drv
+
+
+class _c02s_driver:
+    """ddcommon.run_dd / replay_dd with the plain-BDD edge-level driver"""
+    def __enter__(self):
+        self.orig = ddcommon.build_dd
+        ddcommon.build_dd = build_c02s
+
+    def __exit__(self, *a):
+        ddcommon.build_dd = self.orig
 
 
 class _c02z_driver:
@@ -108,11 +135,19 @@ def run(ctx):
     with _c02z_driver():
         ok_z, bad_z = ddcommon.run_dd(ctx, ["C02"], zbdd, rule="", allowed_axioms=ALLOWED_AXIOMS, drv_args=["--c02z"],
                                       proofs=False, write_ev=False, debug_cases=None, sig_extra="zbdd-model")
+    # pass 1s (plain BDD, edge level): every operation of the bdd cases replayed by the extracted model of
+    # coq/DD/Apply.v (direct-mapped cache model) on the snapshot BEFORE the operation: same result edge, the
+    # same new nodes, no node of the pre-state changed (theorems C02_bdd_edge_*)
+    bdd = [c for c in cases if " kind=bdd " in c[0] + " "]
+    with _c02s_driver():
+        ok_s, bad_s = ddcommon.run_dd(ctx, ["C02"], bdd, rule="", allowed_axioms=ALLOWED_AXIOMS, drv_args=["--c02s"],
+                                      proofs=False, write_ev=False, debug_cases=None, sig_extra="bdd-edge")
     ddcommon.run_dd(
         ctx, ["C02"], cases, proofs=False,
         extra_cov={"bcdd_model_cases_ok": ok_b, "bcdd_model_cases_bad": len(bad_b),
-                   "zbdd_model_cases_ok": ok_z, "zbdd_model_cases_bad": len(bad_z)},
-        rule="per kind (bdd, bcdd, zbdd): all 65536 ordered pairs of the 256 three-variable functions for each of the 8 binary operators, not/eval/node_count/cofactors of all 256, sampled ite triples, constants and (negated) variables, under one seed-chosen order (quick) or all 6 (thorough); sampled pairs with 2 and 8 worker threads; random histories over 4..7 variables; the bcdd cases are additionally replayed operation by operation on the extracted BCDD apply model (correspondence_stats c02b_*), the zbdd cases on the extracted ZBDD model (c02z_*). non-trivial = case with >= 3 ops; distinct = distinct (header, op list)",
+                   "zbdd_model_cases_ok": ok_z, "zbdd_model_cases_bad": len(bad_z),
+                   "bdd_edge_cases_ok": ok_s, "bdd_edge_cases_bad": len(bad_s)},
+        rule="per kind (bdd, bcdd, zbdd): all 65536 ordered pairs of the 256 three-variable functions for each of the 8 binary operators, not/eval/node_count/cofactors of all 256, sampled ite triples, constants and (negated) variables, under one seed-chosen order (quick) or all 6 (thorough); sampled pairs with 2 and 8 worker threads; random histories over 4..7 variables; the bcdd cases are additionally replayed operation by operation on the extracted BCDD apply model (correspondence_stats c02b_*), the zbdd cases on the extracted ZBDD model (c02z_*), the bdd cases at edge level on the pre-state snapshot by the extracted plain-BDD model (c02s_*: same edge, same new nodes, frame). non-trivial = case with >= 3 ops; distinct = distinct (header, op list)",
         allowed_axioms=ALLOWED_AXIOMS)
 
 
@@ -124,6 +159,9 @@ def replay(ctx, path):
             ddcommon.replay_dd(ctx, path)
     elif "--c02z" in args:
         with _c02z_driver():
+            ddcommon.replay_dd(ctx, path)
+    elif "--c02s" in args:
+        with _c02s_driver():
             ddcommon.replay_dd(ctx, path)
     else:
         ddcommon.replay_dd(ctx, path)
